@@ -6,27 +6,46 @@ not import exactly_lib and does not use `shlex`.
 
 Two parts:
 
-* `next_token(src, pos)` - the tokenizer: a token is a maximal run of adjacent fragments (naked characters,
+* `next_token(src, pos, ws)` - the tokenizer: a token is a maximal run of adjacent fragments (naked characters,
   "soft quoted", 'hard quoted'), tokens are separated by whitespace, there is no escape character, an opening
   quote without a closing one is an error.
-* `Reader` - reads a RICH-STRING / LIST / PROGRAM-ARGUMENT list at a position of a source text and gives the
-  denoted string(s); the hosts (`def string`, `file`, `def list`, `%`, `run ( % ... )`) are read by `read_host`.
+* `Reader` - reads a RICH-STRING / LIST / PROGRAM-ARGUMENT list / TEXT-SOURCE at a position of a source text and
+  gives the denoted string(s); the hosts (`def string`, `file`, `def list`, `%`, `run ( % ... )`, ...) are read by
+  `read_host`.
+
+Readings that the manual leaves open (every one of them is accepted by the check, but one reading is applied to
+the whole case):
+
+* `ws_extra`  the manual says "whitespace" without saying which characters these are.  Reading A: blank, tab, CR,
+              LF.  Readings B(U): these plus a set U of further Unicode white-space characters (NO-BREAK SPACE,
+              FORM FEED, LINE SEPARATOR, ...).  Under B(U) the characters of U separate tokens, are blank at the
+              end of a line and are removed around TEXT-UNTIL-END-OF-LINE; under A they are ordinary characters.
+              (A line always ends at LF only.)
+* `eol_uni`   "Whitespace at both ends is removed" (`:>`): the white space of the reading, or every Unicode
+              white-space character.
+* `xref`, `strict`  see the check's ASSUMPTIONS.
 
 Defect models (used only to *classify* a mismatch as a listed finding, never to accept it silently):
 
-* `comment`  (KF-C09-1) the character `#` outside quotes starts a comment that runs to the end of the line
-             (the tokenizer drops it, while "rest of the current line" is still computed on the raw text);
-* `kf2`      (KF-C09-2) whether symbol references are substituted is decided for the token as a whole by the
-             kind of its first fragment (hard quote first: nothing substituted; else: everything);
-* `kf3`      (KF-C09-3) a token counts as "unquoted" when its first fragment is naked, even if quoted
-             fragments follow (so `@[L]@""` is spliced as a list, `:>""` starts text-until-end-of-line).
-
-Readings that the manual leaves open are selected by the flags `xref` and `strict` (both values are accepted
-by the check).
+* `kf5` (KF-C09-5)  tokens are delimited by blank/tab/CR/LF only, but the text of a token that its value, its being
+                    a reserved word / an option / a sole symbol reference / a here-document start are derived
+                    from has every Unicode white-space character removed at both ends
+                    (`TokenStream.consume`: `source[...].strip()`).
+* `kf6` (KF-C09-6)  tokens are delimited by blank/tab/CR/LF only, but "is the rest of the line blank?" is decided
+                    with `str.isspace()` / `str.strip()` (all Unicode white space): a last token of a line that
+                    consists of such characters only is dropped (and stays the look-ahead token when the parser
+                    then moves to the end of / past the line).
 """
 import re
 
-WHITESPACE = ' \t\r\n'
+ASCII_WS = ' \t\r\n'
+WHITESPACE = ASCII_WS
+# every further character that is white space for `str.isspace` / `str.strip` (Unicode White_Space plus the
+# information separators FS GS RS US, which Python counts too)
+UNICODE_WS = ''.join(chr(c) for c in
+                     [0x0b, 0x0c, 0x1c, 0x1d, 0x1e, 0x1f, 0x85, 0xa0, 0x1680] + list(range(0x2000, 0x200b)) +
+                     [0x2028, 0x2029, 0x202f, 0x205f, 0x3000])
+ALL_WS = ASCII_WS + UNICODE_WS
 NAKED, SOFT, HARD = 'n', 's', 'h'
 QUOTE_OF = {'"': SOFT, "'": HARD}
 RESERVED = ('(', ')', '[', ']', '{', '}', '=', '|', ':', '!', '&&', '||')
@@ -36,57 +55,50 @@ TEXT_UNTIL_EOL = ':>'
 CONTINUATION = '\\'
 TRANSFORMED_BY = '-transformed-by'
 UNSUPPORTED_OPTIONS = ('-existing-file', '-existing-dir', '-existing-path')
+UNSUPPORTED_TEXT_SOURCE_OPTIONS = ('-contents-of', '-stdout-from', '-stderr-from')
 
 
 class Tok:
-    __slots__ = ('kind', 'start', 'end', 'frags', 'cut')
+    __slots__ = ('kind', 'start', 'end', 'frags', 'vsrc', 'vfrags')
 
-    def __init__(self, kind, start, end=None, frags=None, cut=False):
+    def __init__(self, kind, start, end=None, frags=None):
         self.kind = kind  # 'tok' | 'null' | 'err'
         self.start = start
         self.end = end
         self.frags = frags or []
-        self.cut = cut
+        self.vsrc = None  # the source text that the meaning of the token is derived from (defect model kf5)
+        self.vfrags = self.frags
 
     @property
     def string(self):
         return ''.join(t for _, t in self.frags)
 
     @property
+    def vstring(self):
+        return ''.join(t for _, t in self.vfrags)
+
+    @property
     def all_naked(self):
         return all(k == NAKED for k, _ in self.frags)
 
-    @property
-    def first_naked(self):
-        return self.frags[0][0] == NAKED
-
     def as_list(self):
-        return [self.kind, self.start, self.end, [list(f) for f in self.frags], self.cut]
+        return [self.kind, self.start, self.end, [list(f) for f in self.frags]]
 
 
-def next_token(src: str, pos: int, comment: bool = False) -> Tok:
+def next_token(src: str, pos: int, ws: str = ASCII_WS) -> Tok:
     """The first token that starts at or after `pos`."""
     n = len(src)
     i = pos
-    while True:
-        while i < n and src[i] in WHITESPACE:
-            i += 1
-        if comment and i < n and src[i] == '#':
-            j = src.find('\n', i)
-            i = n if j < 0 else j + 1
-            continue
-        break
+    while i < n and src[i] in ws:
+        i += 1
     if i >= n:
         return Tok('null', n, n)
     start = i
     frags = []
     while i < n:
         c = src[i]
-        if c in WHITESPACE:
+        if c in ws:
             break
-        if comment and c == '#':
-            j = src.find('\n', i)
-            return Tok('tok', start, n if j < 0 else j, frags, cut=True)
         if c in QUOTE_OF:
             j = src.find(c, i + 1)
             if j < 0:
@@ -95,19 +107,25 @@ def next_token(src: str, pos: int, comment: bool = False) -> Tok:
             i = j + 1
         else:
             j = i
-            while j < n and src[j] not in WHITESPACE and src[j] not in QUOTE_OF and not (comment and src[j] == '#'):
+            while j < n and src[j] not in ws and src[j] not in QUOTE_OF:
                 j += 1
             frags.append((NAKED, src[i:j]))
             i = j
     return Tok('tok', start, i, frags)
 
 
-def tokenize(src: str, comment: bool = False):
+def quote_fragments(token_source: str):
+    """The fragments of the source text of one well formed token."""
+    t = next_token(token_source, 0, '')
+    return t.frags if t.kind == 'tok' else []
+
+
+def tokenize(src: str, ws: str = ASCII_WS):
     """All tokens of `src` (the last entry is the 'null' or 'err' token)."""
     out = []
     pos = 0
     while True:
-        t = next_token(src, pos, comment)
+        t = next_token(src, pos, ws)
         out.append(t)
         if t.kind != 'tok':
             return out
@@ -146,15 +164,18 @@ class Unsupported(Exception):
 
 
 class Reader:
-    def __init__(self, src, pos, symbols, comment=False, kf2=False, kf3=False, xref=False, strict=False):
+    def __init__(self, src, pos, symbols, ws_extra='', eol_uni=False, xref=False, strict=False,
+                 kf5=False, kf6=False):
         self.src = src
         self.pos = pos
         self.symbols = symbols  # name -> ('string', str) | ('list', [str]) | ('path', str)
-        self.comment = comment
-        self.kf2 = kf2
-        self.kf3 = kf3
+        self.ws = ASCII_WS + ('' if (kf5 or kf6) else ws_extra)  # what separates tokens
+        self.line_ws = ALL_WS if kf6 else self.ws  # what is blank when asking "is the rest of the line blank?"
+        self.eol_ws = ALL_WS if eol_uni else self.ws  # what is removed around TEXT-UNTIL-END-OF-LINE
         self.xref = xref
         self.strict = strict
+        self.kf5 = kf5
+        self.kf6 = kf6
         self._head = None
         self._head_pos = None
         self.invalid = False  # a reference that cannot be resolved was met (reported after the syntax is read)
@@ -162,7 +183,13 @@ class Reader:
     # ---- cursor ----------------------------------------------------------
     def head(self) -> Tok:
         if self._head is None or self._head_pos != self.pos:
-            self._head = next_token(self.src, self.pos, self.comment)
+            t = next_token(self.src, self.pos, self.ws)
+            if t.kind == 'tok':
+                t.vsrc = self.src[t.start:t.end]
+                if self.kf5:
+                    t.vsrc = t.vsrc.strip(ALL_WS)
+                    t.vfrags = quote_fragments(t.vsrc)
+            self._head = t
             self._head_pos = self.pos
         return self._head
 
@@ -170,44 +197,44 @@ class Reader:
         return self.src[self.pos:line_end(self.src, self.pos)]
 
     def at_eol(self) -> bool:
-        r = self.rest_of_line()
-        return not r or r.isspace()
+        return self.rest_of_line().strip(self.line_ws) == ''
 
     def at_end(self) -> bool:
         return self.pos >= len(self.src)
 
     def consume(self) -> Tok:
         t = self.head()
-        e = t.end
-        if self.comment and e < len(self.src) and self.src[e] in ' \t\r':
-            e += 1  # the defect model keeps the bookkeeping of the implementation: one delimiter is eaten
-        self.pos = e
+        self.pos = t.end
         return t
 
+    def _leave_line(self, new_pos):
+        rest = self.rest_of_line()
+        if self.kf6 and line_end(self.src, self.pos) < len(self.src) and rest.strip(ASCII_WS) != '' \
+                and rest.strip(ALL_WS) == '':
+            # the position moves, the look-ahead token stays what it was
+            stale = self.head()
+            self.pos = new_pos
+            self._head, self._head_pos = stale, new_pos
+        else:
+            self.pos = new_pos
+
     def to_line_end(self):
-        self.pos = line_end(self.src, self.pos)
+        self._leave_line(line_end(self.src, self.pos))
 
     def to_next_line(self):
-        e = line_end(self.src, self.pos)
-        self.pos = min(len(self.src), e + 1)
+        self._leave_line(min(len(self.src), line_end(self.src, self.pos) + 1))
 
     # ---- token classification ---------------------------------------------
-    def head_source(self) -> str:
-        t = self.head()
-        if self.comment:
-            return self.src[self.pos:t.end].strip()
-        return self.src[t.start:t.end]
-
-    def is_plain(self, t: Tok) -> bool:
+    @staticmethod
+    def is_plain(t: Tok) -> bool:
         """Is the token an unquoted word (so that it can be a reserved word, a marker, a plain reference)?"""
-        if self.comment and self.head_source()[:1] == '#':
-            return True
-        if self.kf3:
-            return t.first_naked
         return t.all_naked
 
     def is_plain_word(self, t: Tok, word: str) -> bool:
-        return t.kind == 'tok' and self.is_plain(t) and t.string == word
+        return t.kind == 'tok' and t.all_naked and t.string == word
+
+    def is_option(self, t: Tok, option: str) -> bool:
+        return t.kind == 'tok' and t.all_naked and t.vsrc == option
 
     def require_token(self) -> Tok:
         t = self.head()
@@ -231,12 +258,8 @@ class Reader:
         return ''.join(v if k == 'lit' else self.render_symbol(v) for k, v in split_refs(text))
 
     def token_value(self, t: Tok) -> str:
-        if self.kf2:
-            if self.comment and self.head_source()[:1] == '#':
-                return self.subst(t.string)
-            return t.string if t.frags[0][0] == HARD else self.subst(t.string)
         parts = []
-        for k, text in t.frags:
+        for k, text in t.vfrags:
             if k == HARD:
                 parts.append([HARD, text])
             elif self.xref and parts and parts[-1][0] != HARD:
@@ -246,18 +269,14 @@ class Reader:
         return ''.join(text if k == HARD else self.subst(text) for k, text in parts)
 
     def sole_reference(self, t: Tok):
-        if t.kind == 'tok' and self.is_plain(t):
-            m = REF_RE.fullmatch(t.string)
+        if t.kind == 'tok' and t.all_naked:
+            m = REF_RE.fullmatch(t.vstring)
             if m:
                 return m.group(1)
         return None
 
     def check_reserved(self, t: Tok):
-        if self.comment or self.kf3:
-            if self.is_plain(t) and self.head_source() in RESERVED:
-                raise SyntaxErr('reserved word')
-            return
-        if t.string in RESERVED:
+        if t.vstring in RESERVED:
             if t.all_naked:
                 raise SyntaxErr('reserved word')
             if self.strict and any(k == NAKED for k, _ in t.frags):
@@ -272,15 +291,9 @@ class Reader:
         self.consume()
         return v
 
-    def is_heredoc_start(self, t: Tok) -> bool:
-        if t.kind != 'tok':
-            return False
-        if self.comment:
-            src = self.head_source()
-            return src.startswith('<<') and src[:1] not in QUOTE_OF
-        if self.kf3:
-            return t.first_naked and t.frags[0][1].startswith('<<')
-        return t.all_naked and t.string.startswith('<<')
+    @staticmethod
+    def is_heredoc_start(t: Tok) -> bool:
+        return t.kind == 'tok' and t.all_naked and t.vsrc.startswith('<<')
 
     def here_doc(self) -> str:
         t = self.head()
@@ -304,7 +317,7 @@ class Reader:
 
     def text_until_eol(self) -> str:
         self.consume()
-        text = self.rest_of_line().strip()
+        text = self.rest_of_line().strip(self.eol_ws)
         self.to_line_end()
         return self.subst(text)
 
@@ -324,7 +337,7 @@ class Reader:
                 return [self.here_doc()]
             if self.is_plain_word(t, TEXT_UNTIL_EOL):
                 return [self.text_until_eol()]
-            if t.string in UNSUPPORTED_OPTIONS and self.is_plain(t):
+            if any(self.is_option(t, o) for o in UNSUPPORTED_OPTIONS):
                 raise Unsupported(t.string)
         name = self.sole_reference(t)
         if name is not None:
@@ -339,13 +352,15 @@ class Reader:
     def list_(self, rich: bool):
         elements = []
         while not self.at_eol():
-            if self.rest_of_line().strip() == CONTINUATION:
+            if self.rest_of_line().strip(self.line_ws) == CONTINUATION:
                 self.to_next_line()
                 continue
             t = self.head()
             if self.is_plain_word(t, ')'):
                 break
             elements.extend(self.element(rich))
+        if self.at_eol():
+            self.to_line_end()
         return elements
 
     def text_source(self) -> str:
@@ -356,6 +371,8 @@ class Reader:
             self.consume()
             paren = True
             t = self.require_token()
+        if any(self.is_option(t, o) for o in UNSUPPORTED_TEXT_SOURCE_OPTIONS):
+            raise Unsupported(t.string)
         name = self.sole_reference(t)
         if name is not None and not self.is_heredoc_start(t):
             typ = self.symbols.get(name, ('string', ''))[0]
@@ -368,7 +385,7 @@ class Reader:
         else:
             v = self.rich_string()
         t = self.head()
-        if self.is_plain_word(t, TRANSFORMED_BY):
+        if self.is_option(t, TRANSFORMED_BY):
             self.consume()
             for w in ('char-case', '-to-upper'):
                 t = self.head()
@@ -386,6 +403,10 @@ class Reader:
     def require_eol(self):
         if not self.at_eol():
             raise SyntaxErr('superfluous arguments')
+
+
+STRING_HOSTS = ('defstr', 'file', 'deftsrc', 'fileapp', 'env', 'stdin', 'pstdin', 'equals')
+LIST_HOSTS = ('deflist', 'args', 'act', 'runargs', 'symargs', 'argspar')
 
 
 def read_host(host: str, src: str, pos: int, symbols: dict, **modes):
@@ -408,7 +429,15 @@ def _read_host(r: Reader, host: str):
             v = r.rich_string()
             r.require_eol()
             return ['str', v], r.pos
-        if host == 'file':
+        if host == 'fname':
+            # PATH without RELATIVITY: FILE-NAME is a STRING (a token that looks like an option is not modelled)
+            t = r.require_token()
+            if t.all_naked and t.vsrc.startswith('-'):
+                raise Unsupported('option-like file name')
+            v = r.string_()
+            r.require_eol()
+            return ['str', v], r.pos
+        if host in ('file', 'deftsrc', 'fileapp', 'env', 'stdin', 'pstdin', 'equals'):
             v = r.text_source()
             r.require_eol()
             return ['str', v], r.pos
@@ -416,7 +445,7 @@ def _read_host(r: Reader, host: str):
             v = r.list_(False)
             r.require_eol()
             return ['list', v], r.pos
-        if host in ('args', 'act'):
+        if host in ('args', 'act', 'runargs', 'symargs'):
             v = r.list_(True)
             r.require_eol()
             return ['list', v], r.pos
